@@ -159,13 +159,35 @@ fn try_collect_of<O: Vec1<f64>>(m: &str, xs: Vec<Result<f64, String>>) -> String
     }
 }
 
+thread_local! {
+    /// how the `src=trust` source of the current `write` request is prepared: (pre, over)
+    static PREP: std::cell::Cell<(usize, usize)> = const { std::cell::Cell::new((0, 0)) };
+}
+
+/// the explicit-length source of a `write src=trust` request: `xs` as an opaque iterator wrapped by
+/// `to_trust`. With `pre = p` the wrapped iterator starts with `p` extra items that are consumed by
+/// one in-range `nth(p - 1)` before the write; with `over = q > 0` (only with `xs` empty) the jump is
+/// `nth(p - 1 + q)`: past the end, the source is exhausted. Either way what is left to write is `xs`.
+fn trust_src(xs: &[f64]) -> impl TrustedLen<Item = f64> {
+    let (pre, over) = PREP.with(|c| c.get());
+    let mut v: Vec<f64> = (0..pre).map(|i| 100. + i as f64).collect();
+    v.extend_from_slice(xs);
+    let n = v.len();
+    let mut it = opaque(v).to_trust(n);
+    if over > 0 {
+        let _ = it.nth(n + over - 1);
+    } else if pre > 0 {
+        let _ = it.nth(pre - 1);
+    }
+    it
+}
+
 /// run `write_trust_iter` against the logging buffer: (status, slots, order)
 fn write_log(len: usize, xs: &[f64], src: &str) -> (String, Vec<Option<f64>>, bool, String) {
     let mut out = LogOut::<f64> { len, log: vec![] };
     let res = catch_unwind(AssertUnwindSafe(|| {
         if src == "trust" {
-            let n = xs.len();
-            opaque(xs.to_vec()).to_trust(n).write(&mut out)
+            trust_src(xs).write(&mut out)
         } else {
             out.write_trust_iter(xs.to_vec().into_iter())
         }
@@ -212,8 +234,7 @@ fn write_real<O: Vec1<f64>>(len: usize, xs: &[f64], src: &str) -> String {
         let res = {
             let mut r = O::uninit_ref_mut(&mut buf);
             if src == "trust" {
-                let n = xs.len();
-                opaque(xs.to_vec()).to_trust(n).write(&mut r)
+                trust_src(xs).write(&mut r)
             } else {
                 r.write_trust_iter(xs.to_vec().into_iter())
             }
@@ -294,6 +315,7 @@ pub fn run(r: &Req) -> Option<String> {
             let xs: Vec<f64> = r.series("xs").into_iter().map(|x| x.unwrap_or(0.)).collect();
             let len = r.usize("len");
             let src = r.s("src");
+            PREP.with(|c| c.set((if r.has("pre") { r.usize("pre") } else { 0 }, if r.has("over") { r.usize("over") } else { 0 })));
             match oc {
                 "log" => {
                     let (st, slots, dup, order) = write_log(len, &xs, src);
@@ -333,6 +355,8 @@ pub fn valid_case(r: &Req) -> bool {
             }
         },
         "collect" => r.s("m") == "opt" || !r.s("xs").is_empty(),
+        // a jump past the end leaves nothing: only with an empty remainder (the shrinker may not add one)
+        "write" => !(r.has("over") && r.usize("over") > 0) || (r.series("xs").is_empty() && r.s("src") == "trust"),
         _ => true,
     }
 }
@@ -449,6 +473,20 @@ pub fn generate(tier: &str, rng: &mut Rng) -> (Vec<String>, bool) {
             for len in 0..=6usize {
                 for k in 0..=8usize {
                     out.push(format!("write oc={} src={} len={} xs={}", oc, src, len, items(k, -3)));
+                }
+            }
+        }
+    }
+    // … and against explicit-length sources that were partly consumed by a jump (`nth`) first: in
+    // range (what is left is written as usual) and past the end (nothing is left)
+    for oc in ["log", "vec", "deque", "nd"] {
+        for len in 0..=4usize {
+            for pre in 1..=3usize {
+                for k in 0..=5usize {
+                    out.push(format!("write oc={} src=trust len={} pre={} xs={}", oc, len, pre, items(k, -3)));
+                }
+                for over in 1..=2usize {
+                    out.push(format!("write oc={} src=trust len={} pre={} over={} xs={}", oc, len, pre, over, items(0, -3)));
                 }
             }
         }
